@@ -70,53 +70,55 @@ def run_real(harness_bin, env, sel, limit=LIMIT, timeout=600):
     return out, p.returncode
 
 
-def run_real_chunked(harness_bin, env, sel, limit=LIMIT, chunk=400, timeout=600, workers=4):
-    """real code on all selected cases, in child processes of `chunk` cases (a hang or crash of the real
-    code costs one chunk, which is then bisected down to the offending case: outcome `TIMEOUT` / `CRASH`)."""
+def run_real_partial(harness_bin, env, sel, limit=LIMIT, timeout=120):
+    """one child process; returns ({id: outcome} of the cases that finished, status) with status in
+    ok / timeout / crash.  The harness prints one line per case, in order, flushed at each newline, so after a
+    hang or crash the first case without a line is the offender."""
+    data = "".join("%s\t%s\t%s\t%d\n" % (c["id"], c["code_hex"], c["input"], limit) for c in sel)
+    status = "ok"
+    try:
+        p = subprocess.run([harness_bin, "c01", "run"], input=data.encode(), timeout=timeout, env=env,
+                           stdout=subprocess.PIPE, stderr=subprocess.PIPE)
+        stdout = p.stdout
+        if p.returncode != 0:
+            status = "crash"
+    except subprocess.TimeoutExpired as e:
+        stdout = e.stdout or b""
+        status = "timeout"
+    if isinstance(stdout, bytes):
+        stdout = stdout.decode("utf-8", "replace")
+    out = {}
+    lines = stdout.split("\n")
+    if status != "ok" and lines and lines[-1] != "":
+        lines = lines[:-1]          # a line cut off in the middle
+    for l in lines:
+        f = l.split("\t")
+        if len(f) == 2:
+            out[f[0]] = f[1]
+    return out, status
+
+
+def run_real_chunked(harness_bin, env, sel, limit=LIMIT, chunk=400, timeout=120, workers=4):
+    """real code on all selected cases, in child processes of `chunk` cases.  A hang or crash of the real code
+    costs one timeout: the offending case (the first one without an answer line) gets the outcome
+    `TIMEOUT` / `CRASH`, the remaining cases of the chunk are run in a fresh process."""
     from concurrent.futures import ThreadPoolExecutor
     chunks = [sel[i:i + chunk] for i in range(0, len(sel), chunk)]
 
     def work(cs):
-        try:
-            out, rc = run_real(harness_bin, env, cs, limit, timeout)
-            if rc == 0 and len(out) == len(cs):
-                return out
-            bad = "CRASH"
-        except subprocess.TimeoutExpired:
-            bad = "TIMEOUT"
-        if len(cs) == 1:
-            return {cs[0]["id"]: bad}
-        h = len(cs) // 2
-        t = max(120, timeout // 2)
-        r = {}
-        for part in (cs[:h], cs[h:]):
-            try:
-                out, rc = run_real(harness_bin, env, part, limit, t)
-                ok = rc == 0 and len(out) == len(part)
-            except subprocess.TimeoutExpired:
-                ok = False
-            r.update(out if ok else work_small(part, t))
-        return r
-
-    def work_small(cs, t):
-        if len(cs) == 1:
-            try:
-                out, rc = run_real(harness_bin, env, cs, limit, 60)
-                if rc == 0 and len(out) == 1:
-                    return out
-                return {cs[0]["id"]: "CRASH"}
-            except subprocess.TimeoutExpired:
-                return {cs[0]["id"]: "TIMEOUT"}
-        h = len(cs) // 2
-        r = {}
-        for part in (cs[:h], cs[h:]):
-            try:
-                out, rc = run_real(harness_bin, env, part, limit, max(90, t // 2))
-                ok = rc == 0 and len(out) == len(part)
-            except subprocess.TimeoutExpired:
-                ok = False
-            r.update(out if ok else work_small(part, max(90, t // 2)))
-        return r
+        res = {}
+        rest = cs
+        while rest:
+            out, status = run_real_partial(harness_bin, env, rest, limit, timeout)
+            done = 0
+            while done < len(rest) and rest[done]["id"] in out:
+                res[rest[done]["id"]] = out[rest[done]["id"]]
+                done += 1
+            if done == len(rest):
+                break
+            res[rest[done]["id"]] = "TIMEOUT" if status == "timeout" else "CRASH"
+            rest = rest[done + 1:]
+        return res
 
     res = {}
     with ThreadPoolExecutor(max_workers=workers) as ex:
